@@ -43,13 +43,6 @@ Definition flag_is (k : Z) (pl : placement) : bool := snd pl =? k.
 Definition xlsx_order (u : list placement) : list placement :=
   filter (flag_is 0) u ++ filter (flag_is 1) u ++ filter (flag_is 2) u.
 
-(* ODS: number_all threaded through the sheets *)
-Fixpoint ods_units (names : list str) (k : Z) (units : list (list placement)) : list (list (Z * str)) :=
-  match units with
-  | [] => []
-  | u :: r => number_all (fetch_odf names) k u :: ods_units names (k + Z.of_nat (List.length u)) r
-  end.
-
 (* ODG (and the second pass of ODT): hrefs already seen are skipped *)
 Fixpoint odf_dedupe (names seen : list str) (count_missing : bool) (k : Z) (l : list placement)
   : list (Z * str) * list str * Z :=
@@ -73,7 +66,7 @@ Fixpoint odt_pass1 (names : list str) (k : Z) (l : list placement) : list (Z * s
   | pl :: r =>
       let h := fst pl in
       if is_http h then odt_pass1 names k r
-      else match member_of names h with
+      else match member_of names (odf_member h) with
            | Some m => let '(out, sn, k') := odt_pass1 names (k + 1) r in ((k + 1, m) :: out, h :: sn, k')
            | None => let '(out, sn, k') := odt_pass1 names k r in (out, h :: sn, k')
            end
@@ -92,7 +85,7 @@ Definition pipeline (fmt : Z) (base : str) (names : list str) (units : list (lis
   | 2 => number_units_running (fetch_opc (s "xl/drawings") names) 0 (map xlsx_order units)
   | 3 => [odt_images names (List.concat units)]
   | 4 => number_units_running (fetch_odf names) 0 units
-  | 5 => ods_units names 0 units
+  | 5 => number_units_running (fetch_odf names) 0 units
   | 6 => [let '(o, _, _) := odf_dedupe names [] true 0 (List.concat units) in o]
   | 7 => [number_found (fetch_opc base names) 0 (List.concat units)]
   | _ => []
